@@ -2,7 +2,7 @@
 // real listeners, chain objects, block store, start-block wiring, real deposit event handlers)
 // over one fake chain; the real Bitcoin ProcessDeposits repeated 64 times per block on
 // transactions paying several bridge addresses; the real CalculateNonce.
-// EVM signing-session ids (executor.Execute, batch index) are C14's subject and not driven here.
+// the real EVM Executor.Execute under several goroutine schedules (sess.go): signing-session ids.
 package main
 
 import (
@@ -43,8 +43,17 @@ type Case struct {
 	A    *Relayer        `json:"a,omitempty"`
 	B    *Relayer        `json:"b,omitempty"`
 	// credit
-	Resources []int   `json:"resources,omitempty"` // resource ids (first byte), map insertion order
-	Txs       [][]int `json:"txs,omitempty"`       // per transaction: indices of the resources its outputs pay
+	Resources []int    `json:"resources,omitempty"` // resource ids given by their first byte (rest zero), or
+	RIDs      []string `json:"rids,omitempty"`      // whole 32-byte resource ids (hex); map insertion order
+	Txs       [][]int  `json:"txs,omitempty"`       // per transaction: indices of the resources its outputs pay
+	// sess: one delivery (message id, gas cap, transfer gas, proposals) to the EVM executor
+	Mid   string `json:"mid,omitempty"`
+	Cap   uint64 `json:"cap,omitempty"`
+	Tg    uint64 `json:"tg,omitempty"`
+	Props []Prop `json:"props,omitempty"`
+	// bexec: one delivery to the Bitcoin executor: message id (mid), resource ids (rids), per
+	// proposal (deposit nonce = its index) the index of its resource
+	BProps []int `json:"bprops,omitempty"`
 	// nonce
 	Block  int64  `json:"block,omitempty"`
 	TxHash string `json:"txhash,omitempty"`
@@ -63,8 +72,16 @@ type RelObs struct {
 
 type Obs struct {
 	A, B *RelObs `json:",omitempty"`
-	// credit: per transaction the distinct outcomes over the repetitions (-1 = no message)
-	Seen [][]int `json:"seen,omitempty"`
+	// credit: per transaction the distinct outcomes over the repetitions (hex resource id, "" = no message)
+	Seen [][]string `json:"seen,omitempty"`
+	// sess: the batch list (members per position), per schedule the sessions (members, session ids),
+	// per repetition of the run-ahead schedule the member lists that were hashed
+	Batches [][]uint64   `json:"batches,omitempty"`
+	Runs    [][]SessObs  `json:"runs,omitempty"`
+	Hashed  [][][]uint64 `json:"hashed,omitempty"`
+	Note    string       `json:"note,omitempty"`
+	// bexec: per schedule what every goroutine worked on
+	BRuns [][]BGroup `json:"bruns,omitempty"`
 	// nonce
 	Nonce    uint64 `json:"nonce,omitempty"`
 	Preimage string `json:"preimage,omitempty"`
@@ -88,8 +105,8 @@ func (c blockConn) GetBlockVerboseTx(*chainhash.Hash) (*btcjson.GetBlockVerboseT
 	return &btcjson.GetBlockVerboseTxResult{Tx: c.txs}, nil
 }
 
-func btcHandler(ids []byte, txs []btcjson.TxRawResult) *btclistener.FungibleTransferEventHandler {
-	res, fee := scanstack.BtcResources(ids)
+func btcHandler(ids [][32]byte, txs []btcjson.TxRawResult) *btclistener.FungibleTransferEventHandler {
+	res, fee := scanstack.BtcResourcesFull(ids)
 	m := map[[32]byte]btcconfig.Resource{}
 	for _, r := range res {
 		m[r.ResourceID] = r
@@ -98,37 +115,51 @@ func btcHandler(ids []byte, txs []btcjson.TxRawResult) *btclistener.FungibleTran
 		make(chan []*message.Message, 16), blockConn{txs}, m, fee)
 }
 
-func idBytes(ids []int) []byte {
-	b := make([]byte, len(ids))
-	for i, x := range ids {
-		b[i] = byte(x)
+// creditIDs: the resource ids of a credit case.
+func creditIDs(c Case) [][32]byte {
+	var out [][32]byte
+	if len(c.RIDs) > 0 {
+		for _, h := range c.RIDs {
+			b, err := hex.DecodeString(h)
+			if err != nil || len(b) != 32 {
+				panic("credit case: resource id is not 32 bytes of hex: " + h)
+			}
+			var id [32]byte
+			copy(id[:], b)
+			out = append(out, id)
+		}
+		return out
 	}
-	return b
+	for _, x := range c.Resources {
+		out = append(out, [32]byte{byte(x)})
+	}
+	return out
 }
 
 func runCredit(c Case) Obs {
-	res, fee := scanstack.BtcResources(idBytes(c.Resources))
+	ids := creditIDs(c)
+	res, fee := scanstack.BtcResourcesFull(ids)
 	block := big.NewInt(840000)
 	var txs []btcjson.TxRawResult
 	for i, pay := range c.Txs {
 		txs = append(txs, scanstack.BtcTx(scanstack.TxHash(uint64(i+1)), 2, pay, res, fee))
 	}
-	eh := btcHandler(idBytes(c.Resources), txs)
+	eh := btcHandler(ids, txs)
 	byNonce := map[uint64]int{}
 	for i := range c.Txs {
 		n, _ := eh.CalculateNonce(block, scanstack.TxHash(uint64(i+1)))
 		byNonce[n] = i
 	}
-	seen := make([]map[int]bool, len(c.Txs))
+	seen := make([]map[string]bool, len(c.Txs))
 	for i := range seen {
-		seen[i] = map[int]bool{}
+		seen[i] = map[string]bool{}
 	}
 	for rep := 0; rep < repetitions; rep++ {
 		out, err := eh.ProcessDeposits(block)
 		if err != nil {
 			panic(err)
 		}
-		got := map[int]int{}
+		got := map[int]string{}
 		for _, msgs := range out {
 			for _, m := range msgs {
 				p := scanstack.Project(m)
@@ -136,24 +167,19 @@ func runCredit(c Case) Obs {
 				if !ok {
 					panic("message with an unknown nonce")
 				}
-				b, _ := hex.DecodeString(p.Resource)
-				got[i] = int(b[0])
+				got[i] = p.RID
 			}
 		}
 		for i := range c.Txs {
-			if r, ok := got[i]; ok {
-				seen[i][r] = true
-			} else {
-				seen[i][-1] = true
-			}
+			seen[i][got[i]] = true // "" = no message
 		}
 	}
-	o := Obs{Seen: make([][]int, len(c.Txs))}
+	o := Obs{Seen: make([][]string, len(c.Txs))}
 	for i, s := range seen {
 		for r := range s {
 			o.Seen[i] = append(o.Seen[i], r)
 		}
-		sort.Ints(o.Seen[i])
+		sort.Strings(o.Seen[i])
 	}
 	return o
 }
@@ -226,6 +252,10 @@ func run(c Case) Obs {
 		return runCredit(c)
 	case "nonce":
 		return runNonce(c)
+	case "sess":
+		return runSess(c)
+	case "bexec":
+		return runBexec(c)
 	}
 	return Obs{A: runRelayer(c, c.A), B: runRelayer(c, c.B)}
 }
@@ -314,11 +344,70 @@ func genPair(r *vgen.Rng, kind string, ival int64, sa, sb int64) Case {
 	return c
 }
 
+// ridShapes: how the 2..4 resource ids of a credit case relate to each other.
+var ridShapes = []string{"first-byte", "left-padded", "last-byte", "middle-byte", "shared-prefix", "random", "left-padded-2", "middle-byte-late"}
+
+func genRIDs(r *vgen.Rng, n int, shape int) []string {
+	for {
+		ids := make([][32]byte, n)
+		base := r.Bytes(32)
+		switch ridShapes[shape] {
+		case "first-byte": // the ids of the repository's own tests: {1}, {2}
+			for i := range ids {
+				ids[i][0] = byte(r.Range(1, 200))
+			}
+		case "left-padded": // the usual Sygma ids: 0x00...0300
+			for i := range ids {
+				ids[i][30] = byte(r.Range(0, 9))
+				ids[i][31] = byte(r.Intn(2) * r.Intn(256))
+			}
+		case "left-padded-2": // small numbers in the last 1..4 bytes
+			w := r.Range(1, 4)
+			for i := range ids {
+				copy(ids[i][32-w:], r.Bytes(w))
+			}
+		case "last-byte": // a common 31-byte prefix
+			for i := range ids {
+				copy(ids[i][:], base)
+				ids[i][31] = byte(r.Intn(256))
+			}
+		case "middle-byte", "middle-byte-late": // differ in one byte somewhere inside
+			p := r.Range(1, 30)
+			if ridShapes[shape] == "middle-byte-late" {
+				p = r.Range(8, 30)
+			}
+			for i := range ids {
+				copy(ids[i][:], base)
+				ids[i][p] = byte(r.Intn(256))
+			}
+		case "shared-prefix": // a common prefix of 1..31 bytes, the rest random
+			l := r.Range(1, 31)
+			for i := range ids {
+				copy(ids[i][:], r.Bytes(32))
+				copy(ids[i][:l], base[:l])
+			}
+		default:
+			for i := range ids {
+				copy(ids[i][:], r.Bytes(32))
+			}
+		}
+		seen := map[[32]byte]bool{}
+		out := make([]string, n)
+		for i, id := range ids {
+			seen[id] = true
+			out[i] = hex.EncodeToString(id[:])
+		}
+		if len(seen) == n {
+			return out
+		}
+	}
+}
+
 func gen(r *vgen.Rng, tier string) []Case {
 	var out []Case
-	npairs, ncredit, nnonce := 90, 60, 40
+	npairs, ncredit, nnonce, nsess, nbexec := 90, 120, 40, 36, 60
 	if tier == "thorough" {
-		npairs, ncredit, nnonce = 1500, 600, 400
+		npairs, ncredit, nnonce, nsess, nbexec = 1500, 1200, 400, 400, 1000
 	}
 	for i := 0; i < npairs; i++ {
 		kind := kinds[i%3]
@@ -330,17 +419,24 @@ func gen(r *vgen.Rng, tier string) []Case {
 		}
 		out = append(out, genPair(r, kind, ival, sa, sb))
 	}
-	for i := 0; i < ncredit; i++ {
-		nres := r.Range(2, 4)
-		ids := map[int]bool{}
-		c := Case{Type: "credit"}
-		for len(c.Resources) < nres {
-			id := r.Range(1, 200)
-			if !ids[id] {
-				ids[id] = true
-				c.Resources = append(c.Resources, id)
+	// start blocks around the first cells of the partition (below the interval, one below a boundary),
+	// as configured start or as stored cursor, against a relayer started at 0
+	for ki, kind := range []string{"evm", "substrate"} {
+		for ival := int64(2); ival <= 7; ival++ {
+			for si, st := range []int64{1, ival - 1, 2*ival - 1} {
+				c := genPair(r, kind, ival, st, 0)
+				c.A.Latest, c.A.Fresh, c.A.Stored = false, false, nil
+				if (ki+int(ival)+si)%2 == 1 { // the same start block, read from the block store
+					v := st
+					c.A.CStart, c.A.Stored = 0, &v
+				}
+				out = append(out, c)
 			}
 		}
+	}
+	for i := 0; i < ncredit; i++ {
+		nres := r.Range(2, 4)
+		c := Case{Type: "credit", RIDs: genRIDs(r, nres, i%len(ridShapes))}
 		for t := r.Range(1, 4); t > 0; t-- {
 			perm := []int{}
 			for j := 0; j < nres; j++ {
@@ -348,14 +444,53 @@ func gen(r *vgen.Rng, tier string) []Case {
 			}
 			r.Shuffle(len(perm), func(a, b int) { perm[a], perm[b] = perm[b], perm[a] })
 			k := r.Intn(4)
-			if i%2 == 0 && k < 2 {
-				k = 2 // every other case certainly has a transaction paying two resources
+			if t == 1 && k < 2 {
+				k = r.Range(2, 3) // every case certainly has a transaction paying two or three resources
 			}
 			if k > nres {
 				k = nres
 			}
 			c.Txs = append(c.Txs, append([]int{}, perm[:k]...))
 		}
+		out = append(out, c)
+	}
+	// EVM signing sessions: the real Execute, 0..4 batches, several schedules
+	mids := []string{"1-2-100-104", "1-3-0-19", "2-1-1073741820-1073741824", "retry-1-2-35-39", "m"}
+	for i := 0; i < nsess; i++ {
+		cap := vgen.Pick(r, []uint64{90, 150, 250, 350, 1000})
+		n := r.Range(0, 7)
+		if i%3 == 0 {
+			n = r.Range(3, 7)
+			cap = vgen.Pick(r, []uint64{150, 250})
+		}
+		ps := make([]Prop, n)
+		for j := range ps {
+			if r.Chance(1, 4) {
+				ps[j] = Prop{HasLimit: true, Limit: uint64(r.Intn(300))}
+			}
+			ps[j].Executed = r.Chance(1, 6)
+		}
+		out = append(out, Case{Type: "sess", Mid: vgen.Pick(r, mids), Cap: cap, Tg: 100, Props: ps})
+	}
+	// Bitcoin executor: deliveries of 1..8 proposals over 1..4 resources (at least 3 used in two of three)
+	for i := 0; i < nbexec; i++ {
+		nres := r.Range(1, 4)
+		if i%3 != 0 {
+			nres = r.Range(3, 4)
+		}
+		c := Case{Type: "bexec", Mid: vgen.Pick(r, mids), RIDs: genRIDs(r, nres, r.Intn(len(ridShapes)))}
+		n := r.Range(1, 8)
+		if i%3 != 0 {
+			n = r.Range(nres, 8)
+		}
+		for j := 0; j < n; j++ {
+			ri := r.Intn(nres)
+			if i%3 != 0 && j < nres {
+				ri = j // every resource is used
+			}
+			c.BProps = append(c.BProps, ri)
+		}
+		r.Shuffle(len(c.BProps), func(a, b int) { c.BProps[a], c.BProps[b] = c.BProps[b], c.BProps[a] })
 		out = append(out, c)
 	}
 	for i := 0; i < nnonce; i++ {
@@ -426,18 +561,45 @@ func coqRel(r *Relayer, o *RelObs) string {
 func coq(c Case, o Obs) string {
 	switch c.Type {
 	case "credit":
-		return "Credit " + vgen.ListOf(c.Resources, func(b int) string { return vgen.N(uint64(b)) }) + " " +
+		ids := creditIDs(c)
+		rid := func(id []byte) string { return vgen.NBig(new(big.Int).SetBytes(id)) }
+		return "Credit " + vgen.ListOf(ids, func(id [32]byte) string { return rid(id[:]) }) + " " +
 			vgen.ListOf(c.Txs, func(pay []int) string {
-				return vgen.ListOf(pay, func(i int) string { return vgen.N(uint64(c.Resources[i])) })
+				return vgen.ListOf(pay, func(i int) string { return rid(ids[i][:]) })
 			}) + " " +
-			vgen.ListOf(o.Seen, func(s []int) string {
-				return vgen.ListOf(s, func(r int) string {
-					if r < 0 {
+			vgen.ListOf(o.Seen, func(s []string) string {
+				return vgen.ListOf(s, func(h string) string {
+					if h == "" {
 						return "None"
 					}
-					return vgen.Some(vgen.N(uint64(r)))
+					b, _ := hex.DecodeString(h)
+					return vgen.Some(rid(b))
 				})
 			})
+	case "bexec":
+		ids := creditIDs(c)
+		rid := func(id []byte) string { return vgen.NBig(new(big.Int).SetBytes(id)) }
+		props := make([]string, len(c.BProps))
+		for i, ri := range c.BProps {
+			props[i] = vgen.Pair(vgen.N(uint64(i)), rid(ids[ri][:]))
+		}
+		return "Bexec " + vgen.List(props) + "\n    " +
+			vgen.ListOf(o.BRuns, func(run []BGroup) string {
+				return vgen.ListOf(run, func(g BGroup) string {
+					r := "None"
+					if b, err := hex.DecodeString(g.RID); err == nil && len(b) == 32 {
+						r = vgen.Some(rid(b))
+					}
+					return vgen.Pair(vgen.ListOf(g.Members, vgen.N), r)
+				})
+			})
+	case "sess":
+		mem := func(m []uint64) string { return vgen.ListOf(m, vgen.N) }
+		return "Sess " + vgen.Str(c.Mid) + " " + vgen.ListOf(o.Batches, mem) + "\n    " +
+			vgen.ListOf(o.Runs, func(run []SessObs) string {
+				return vgen.ListOf(run, func(x SessObs) string { return vgen.Pair(mem(x.Members), vgen.ListOf(x.Sids, vgen.Str)) })
+			}) + "\n    " +
+			vgen.ListOf(o.Hashed, func(h [][]uint64) string { return vgen.ListOf(h, mem) })
 	case "nonce":
 		return "NonceOf " + vgen.Z(c.Block) + " " + vgen.Str(c.TxHash) + " " + vgen.Str(o.Preimage) + " " + vgen.Str(o.Digest) + " " + vgen.N(o.Nonce)
 	}
@@ -448,6 +610,7 @@ func coq(c Case, o Obs) string {
 }
 
 func main() {
+	zerolog.SetGlobalLevel(zerolog.Disabled)
 	wiring = scanstack.LoadWiring()
 	vgen.Main(vgen.Spec[Case, Obs]{
 		Property:  "C19",
@@ -473,9 +636,23 @@ func main() {
 					}
 				}
 				return false
+			case "sess":
+				n := 0
+				for _, b := range o.Batches {
+					if len(b) > 0 {
+						n++
+					}
+				}
+				return n >= 2
+			case "bexec":
+				used := map[int]bool{}
+				for _, ri := range c.BProps {
+					used[ri] = true
+				}
+				return len(used) >= 2
 			}
 			return true
 		},
-		Rule: "pairs of independently configured real listener stacks (EVM/Substrate/BTC; intervals 1..7; starts 0..60 and large; stored cursor absent/behind/ahead; latest/fresh flags; faults; 0..2 crashes each) over one fake chain with 0..2 deposits per block to 3 destinations; Bitcoin ProcessDeposits x64 on blocks of 1..4 transactions paying 0..3 of 2..4 resources; CalculateNonce on random (height, tx hash); distinct = distinct input JSON; non-trivial = both relayers emitted message groups / a transaction paying at least two resources / any nonce case",
+		Rule: "pairs of independently configured real listener stacks (EVM/Substrate/BTC; intervals 1..7; starts 0..60 and large, plus starts 1, i-1, 2i-1 for every interval i against a relayer started at 0; stored cursor absent/behind/ahead; latest/fresh flags; faults; 0..2 crashes each) over one fake chain with 0..2 deposits per block to 3 destinations; Bitcoin ProcessDeposits x64 on blocks of 1..4 transactions paying 0..3 of 2..4 resources whose 32-byte ids differ in the first byte / are left-padded small numbers / share a 31-byte prefix / differ in one inner byte / share a prefix of 1..31 bytes / are random; CalculateNonce on random (height, tx hash); the real EVM Executor.Execute (real tss.Coordinator, fake host and communication) on deliveries of 0..7 proposals forming 0..4 batches, 3 gated schedules (default and GOMAXPROCS(1)) + 2 run-ahead repetitions each; the real Bitcoin Executor.Execute on deliveries of 1..8 proposals over 1..4 resources, 4 schedules (GOMAXPROCS(1) run-ahead and default) each; distinct = distinct input JSON; non-trivial = both relayers emitted message groups / a transaction paying at least two resources / any nonce case / a delivery of at least two signed batches / a Bitcoin delivery concerning at least two resources",
 	})
 }
